@@ -68,6 +68,7 @@ type c10Result struct {
 	Millis   int64     `json:"ms,omitempty"`
 	OptAbs   int       `json:"opt_absent,omitempty"`
 	RootSeen string    `json:"root_seen,omitempty"`
+	ByContent int      `json:"by_content,omitempty"`
 }
 
 type c10Batch struct {
@@ -96,7 +97,7 @@ func c10BatchMain(args []string) int {
 		return 2
 	}
 	// Address-space backstop: a length field turned into gigabytes must fail inside this child, not take the host down.
-	lim := syscall.Rlimit{Cur: 12 << 30, Max: 12 << 30}
+	lim := syscall.Rlimit{Cur: 2 << 30, Max: 2 << 30} // the Go runtime itself needs > 1 GB of address space
 	syscall.Setrlimit(syscall.RLIMIT_AS, &lim)
 	// Opening a store allocates tens of MB of buffers (journal: 5+5+10 MB; iteration: 4 MB per table file). Collect rarely and
 	// keep the heap mapped, otherwise every case pays page faults for freshly scavenged memory.
@@ -373,11 +374,34 @@ func c10ReadAll(fx *c10Fixture, dir string, focus []string, allocLimitMB int64, 
 			}
 		}
 	}
+	// Guard-rails for forged addresses (a device of this harness, not inputs Dolt can meet):
+	//  * the journal index keys chunks by the first 16 address bytes ("assumed to be globally unique"): probes that share
+	//    16 bytes with a written chunk without being one are not asked;
+	//  * archiveChunkSource.getMany labels its deliveries with the content hash (chunks.NewChunk): a forged chunk delivered
+	//    under the hash of its bytes is matched by content.
+	forgedByContent := map[hash.Hash][]hash.Hash{}
+	for _, c := range fx.Chunks {
+		if c.Forged {
+			ch := hash.Of(c.Data)
+			forgedByContent[ch] = append(forgedByContent[ch], c.h)
+		}
+	}
 	for _, f := range focus {
 		if h, ok := hash.MaybeParse(f); ok {
 			probes.Insert(h)
 			for _, nb := range oracle.Neighbours(h) {
 				probes.Insert(nb)
+			}
+		}
+	}
+	if fx.Store == "journal" {
+		for h := range probes {
+			var k [16]byte
+			copy(k[:], h[:16])
+			if _, isModel := model[h]; !isModel {
+				if _, clash := by16[k]; clash {
+					delete(probes, h)
+				}
 			}
 		}
 	}
@@ -473,6 +497,15 @@ func c10ReadAll(fx *c10Fixture, dir string, focus []string, allocLimitMB int64, 
 		mu.Lock()
 		defer mu.Unlock()
 		if !probes.Has(ch.Hash()) {
+			if fs := forgedByContent[ch.Hash()]; len(fs) > 0 && hash.Of(ch.Data()) == ch.Hash() {
+				for _, f := range fs {
+					if got[f] == 0 {
+						got[f]++
+						res.ByContent++
+						return
+					}
+				}
+			}
 			viol("wrong-bytes", "GetMany", fmt.Sprintf("GetMany delivered a chunk labelled %s, which was not requested (content hash %s)", ch.Hash(), hash.Of(ch.Data())))
 			return
 		}
